@@ -8,16 +8,18 @@
  * usage: c14_bounce <replen> <rcplen> <nrandom> <seed> <shard> <nshards>
  *        c14_bounce -            cases "<kind> <blobhex>" on stdin (kind = P | I | C | D)
  * A case is one blob: fields separated by NUL bytes (all fields are C strings in the real program).
- *   P: vdomsfile recip report [wmode]
- *   I: flags me bouncefrom bouncehost doublebounceto doublebouncehost virtualdomains fault sender mess {recip report}*
- *      flags = subset of "mfhtdv" (which control files exist); fault = one of "-abcdefghi"
+ *   P: vdomsfile recip report [wmode [localsfile]]
+ *   I: flags me bouncefrom bouncehost doublebounceto doublebouncehost virtualdomains locals fault sender mess {recip report}*
+ *      flags = subset of "mfhtdvl" (which control files exist; with neither m nor l, control/locals is "localhost",
+ *      because getcontrols() refuses to start without me and locals); fault = one of "-abcdefghi"
  *   C: like I (fault ignored): follows message -> bounce -> double bounce -> ... (at most 6 steps)
- *   D: flags recip raw chunk [vdomsfile]   flags[0]='1' job is dying; raw = status byte + text from the spawner
+ *   D: flags recip raw chunk [vdomsfile [localsfile]]   flags[0]='1' job is dying; raw = status byte + text from the spawner
  * output, one line per case (hex fields, "-" = empty):
  *   P <blob> <stripped> <text> <sleeps>
  *   I <id> <blob> <bouncefile> <ret> <q> <F> <T> <body> <left> <log> <ret2> <q2> <F2> <T2> <body2|=> <left2>
  *   C <blob> <n> <sender0> {<F> <T>}*n
- *   D <blob> <appended> */
+ *   D <blob> <appended>
+ *   X <kind> <blob>         the implementation crashed / a sanitizer fired while running this case */
 #include "hcommon.h"
 #include <sys/stat.h>
 #include <sys/syscall.h>
@@ -222,19 +224,38 @@ static void blob_adds(const char *s) { blob_add(s, strlen(s)); }
 
 static void hexf(const unsigned char *p, size_t n) { fputc(' ', h_out); h_hex(p, n); }
 
+/* ------------------------------------------------------------------ crash attribution
+ * a sanitizer report, abort() or SIGSEGV inside the code under test prints "X <kind> <blob>" for the
+ * case being run, so that the failing input is known */
+static char cur_kind; static const unsigned char *cur_b; static size_t cur_n; static int crash_done;
+static void cur_set(char k, const unsigned char *b, size_t n) { cur_kind = k; cur_b = b; cur_n = n; }
+static void crash_report(void) {
+  if (!cur_kind || crash_done) return;
+  crash_done = 1;
+  fprintf(h_out, "\nX %c ", cur_kind); h_hex(cur_b, cur_n); fputc('\n', h_out); fflush(h_out);
+}
+void __asan_on_error(void) { crash_report(); }
+#include <signal.h>
+static void on_sig(int sg) { crash_report(); signal(sg, SIG_DFL); raise(sg); }
+
 /* ------------------------------------------------------------------ virtualdomains for P/D cases */
-static hbuf vd_cache; static int vd_valid, maps_init;
-static void set_vdoms(const unsigned char *p, size_t n) {
+static hbuf vd_cache, lo_cache; static int vd_valid, maps_init;
+static void set_tables(const unsigned char *p, size_t n, const unsigned char *lp, size_t ln) {
   int r;
   vf_put("control/virtualdomains", p, n);
-  if (vd_valid && vd_cache.n == n && (n == 0 || !memcmp(vd_cache.p, p, n))) return;
-  if (maps_init) constmap_free(&mapvdoms);
+  vf_put("control/locals", lp, ln);
+  if (vd_valid && vd_cache.n == n && (n == 0 || !memcmp(vd_cache.p, p, n))
+      && lo_cache.n == ln && (ln == 0 || !memcmp(lo_cache.p, lp, ln))) return;
+  if (maps_init) { constmap_free(&mapvdoms); constmap_free(&maplocals); }
   r = control_readfile(&vdoms, "control/virtualdomains", 0);
   if (r == 1) { if (!constmap_init(&mapvdoms, vdoms.s, vdoms.len, 1)) nomem(); }
   else if (!constmap_init(&mapvdoms, "", 0, 1)) nomem();
-  if (!maps_init) { constmap_init(&maplocals, "", 0, 0); constmap_init(&mappercenthack, "", 0, 0); }
+  if (control_readfile(&locals, "control/locals", 1) != 1) nomem();
+  if (!constmap_init(&maplocals, locals.s, locals.len, 0)) nomem();
+  if (!maps_init) constmap_init(&mappercenthack, "", 0, 0);
   maps_init = 1;
-  hbuf_reset(&vd_cache); hb_add(&vd_cache, p, n); vd_valid = 1;
+  hbuf_reset(&vd_cache); hb_add(&vd_cache, p, n);
+  hbuf_reset(&lo_cache); hb_add(&lo_cache, lp, ln); vd_valid = 1;
 }
 
 #define ID0 4711ul
@@ -248,9 +269,10 @@ static void names(unsigned long id) {
 /* ------------------------------------------------------------------ P */
 static void case_P(const unsigned char *b, size_t n) {
   char *stripped; vfile *f;
+  cur_set('P', b, n);
   split_blob(b, n);
   vf_reset(); faults_clear(); nsleeps = 0; hbuf_reset(&logb);
-  set_vdoms(fld[0], fln[0]);
+  set_tables(fld[0], fln[0], fld[4], fln[4]);
   names(ID0);
   wmode = (fln[3] > 0) ? fstr[3][0] - '0' : 0;
   stripped = stripvdomprepend(fstr[1]);
@@ -264,12 +286,12 @@ static void case_P(const unsigned char *b, size_t n) {
 
 /* ------------------------------------------------------------------ I and C */
 static void setup_controls(void) {
-  static const char *cn[6] = { "control/me", "control/bouncefrom", "control/bouncehost", "control/doublebounceto",
-                               "control/doublebouncehost", "control/virtualdomains" };
-  static const char fl[6] = { 'm', 'f', 'h', 't', 'd', 'v' };
+  static const char *cn[7] = { "control/me", "control/bouncefrom", "control/bouncehost", "control/doublebounceto",
+                               "control/doublebouncehost", "control/virtualdomains", "control/locals" };
+  static const char fl[7] = { 'm', 'f', 'h', 't', 'd', 'v', 'l' };
   int i;
-  for (i = 0; i < 6; i++) if (strchr(fstr[0], fl[i])) vf_put(cn[i], fld[1 + i], fln[1 + i]);
-  vf_put("control/locals", "localhost\n", 10);
+  for (i = 0; i < 7; i++) if (strchr(fstr[0], fl[i])) vf_put(cn[i], fld[1 + i], fln[1 + i]);
+  if (!strchr(fstr[0], 'l') && !strchr(fstr[0], 'm')) vf_put("control/locals", "localhost\n", 10);
   if (maps_init) { constmap_free(&maplocals); constmap_free(&mappercenthack); constmap_free(&mapvdoms); }
   meok = 0; me.len = 0;
   if (!getcontrols()) { fprintf(stderr, "c14_bounce: getcontrols failed\n"); fflush(h_out); abort(); }
@@ -290,14 +312,14 @@ static int run_inject(const unsigned char *b, size_t n, unsigned long id, int us
   vf_reset(); faults_clear(); nsleeps = 0;
   setup_controls();
   names(id);
-  { hbuf t = {0}; hb_add(&t, "F", 1); hb_add(&t, fld[8], fln[8]); hb_add(&t, "", 1); vf_put(fn_info, t.p, t.n); free(t.p); }
-  vf_put(fn_mess, fld[9], fln[9]);
-  for (i = 10; i + 1 < nfld; i += 2) addbounce(id, fstr[i], fstr[i + 1]);
+  { hbuf t = {0}; hb_add(&t, "F", 1); hb_add(&t, fld[9], fln[9]); hb_add(&t, "", 1); vf_put(fn_info, t.p, t.n); free(t.p); }
+  vf_put(fn_mess, fld[10], fln[10]);
+  for (i = 11; i + 1 < nfld; i += 2) addbounce(id, fstr[i], fstr[i + 1]);
   fprintf(h_out, "I %lu", id); hexf(b, n);
   f = vf_get(fn_bounce, 0);
   if (f && f->exists) hexf(f->d.p, f->d.n); else fputs(" -", h_out);
-  size_t blen = (f && f->exists) ? f->d.n : 0, mlen = fln[9];
-  fault = (use_fault && fln[7]) ? fstr[7][0] : '-';
+  size_t blen = (f && f->exists) ? f->d.n : 0, mlen = fln[10];
+  fault = (use_fault && fln[8]) ? fstr[8][0] : '-';
   switch (fault) {
     case 'a': unlink(fn_info); break;
     case 'b': flt_stat_fail = "bounce/"; break;
@@ -323,7 +345,7 @@ static int run_inject(const unsigned char *b, size_t n, unsigned long id, int us
   hb_add(&f1, qq_from.p, qq_from.n); if (qq_nto > 0) hb_add(&t1, qq_to[0].p, qq_to[0].n);
   /* second call, without faults: retry after a failure, or "once" after a success */
   faults_clear();
-  if (fault == 'a') { hbuf t = {0}; hb_add(&t, "F", 1); hb_add(&t, fld[8], fln[8]); hb_add(&t, "", 1); vf_put(fn_info, t.p, t.n); free(t.p); }
+  if (fault == 'a') { hbuf t = {0}; hb_add(&t, "F", 1); hb_add(&t, fld[9], fln[9]); hb_add(&t, "", 1); vf_put(fn_info, t.p, t.n); free(t.p); }
   hbuf_reset(&logb); opens = qq_opens; qq_accepted = 0;
   r2 = injectbounce(id);
   if (qq_opens == opens) { qq_accepted = 0; qq_nfrom = qq_nto = 0; hbuf_reset(&qq_from); hbuf_reset(&qq_body); }
@@ -338,23 +360,24 @@ static int run_inject(const unsigned char *b, size_t n, unsigned long id, int us
   hbuf_reset(&qq_to[0]); hb_add(&qq_to[0], t1.p, t1.n);
   return q1;
 }
-static void case_I(const unsigned char *b, size_t n) { split_blob(b, n); run_inject(b, n, ID0, 1); }
+static void case_I(const unsigned char *b, size_t n) { cur_set('I', b, n); split_blob(b, n); run_inject(b, n, ID0, 1); }
 
 static const char chain_report[] = "Sorry, I couldn't find any host by that name. (#5.1.2)\n";
 static void case_C(const unsigned char *b0, size_t n0) {
   static hbuf cur, chain, first; int step, q, i, nq = 0;
   hbuf_reset(&cur); hb_add(&cur, b0, n0);
   hbuf_reset(&first); hb_add(&first, b0, n0);
+  cur_set('C', first.p, first.n);
   hbuf_reset(&chain);
   split_blob(cur.p, cur.n);
-  char s0[8192]; size_t s0n = fln[8] < sizeof s0 ? fln[8] : sizeof s0; if (s0n) memcpy(s0, fld[8], s0n);
+  char s0[8192]; size_t s0n = fln[9] < sizeof s0 ? fln[9] : sizeof s0; if (s0n) memcpy(s0, fld[9], s0n);
   for (step = 0; step < 6; step++) {
     /* same controls, fault '-' */
     blob_start();
-    for (i = 0; i < 7; i++) blob_add(fld[i], fln[i]);
+    for (i = 0; i < 8; i++) blob_add(fld[i], fln[i]);
     blob_adds("-");
-    for (i = 8; i < nfld; i++) blob_add(fld[i], fln[i]);
-    if (nfld < 10) for (i = nfld < 8 ? 8 : nfld; i < 10; i++) blob_adds("");
+    for (i = 9; i < nfld; i++) blob_add(fld[i], fln[i]);
+    if (nfld < 11) for (i = nfld < 9 ? 9 : nfld; i < 11; i++) blob_adds("");
     hbuf_reset(&cur); hb_add(&cur, blob.p, blob.n);
     split_blob(cur.p, cur.n);
     q = run_inject(cur.p, cur.n, ID0 + step, 0);
@@ -367,7 +390,7 @@ static void case_C(const unsigned char *b0, size_t n0) {
       hb_add(&chain, " ", 1);
       if (!qq_to[0].n) hb_add(&chain, "-", 1); for (k = 0; k < qq_to[0].n; k++) { hb_add(&chain, &d[qq_to[0].p[k] >> 4], 1); hb_add(&chain, &d[qq_to[0].p[k] & 15], 1); } }
     blob_start();
-    for (i = 0; i < 7; i++) blob_add(fld[i], fln[i]);
+    for (i = 0; i < 8; i++) blob_add(fld[i], fln[i]);
     blob_adds("-");
     blob_add(qq_from.p, qq_from.n);
     blob_add(qq_body.p, qq_body.n);
@@ -385,9 +408,10 @@ static void case_C(const unsigned char *b0, size_t n0) {
 static int d_init;
 static void case_D(const unsigned char *b, size_t n) {
   int c = 0, dn = 1; vfile *f; static hbuf raw;
+  cur_set('D', b, n);
   split_blob(b, n);
   vf_reset(); faults_clear(); nsleeps = 0; hbuf_reset(&logb);
-  set_vdoms(fld[4], fln[4]);
+  set_tables(fld[4], fln[4], fld[5], fln[5]);
   names(ID0);
   if (!d_init) {
     numjobs = 2; job_init();
@@ -422,6 +446,10 @@ static void run_case(char kind, const unsigned char *b, size_t n) {
     default: break;
   }
 }
+#define case_P(b, n) (case_P(b, n), cur_kind = 0)
+#define case_I(b, n) (case_I(b, n), cur_kind = 0)
+#define case_C(b, n) (case_C(b, n), cur_kind = 0)
+#define case_D(b, n) (case_D(b, n), cur_kind = 0)
 
 /* ------------------------------------------------------------------ generators */
 static const char *P_me[] = { "mx.example.org\n", "host\n", "me.example\nsecond line\n" };
@@ -431,7 +459,10 @@ static const char *P_dbto[] = { "postmaster\n", "dbl\n", "admin@elsewhere.exampl
 static const char *P_dbhost[] = { "dbl.example.org\n", "d\n", "\n" };
 static const char *P_vline[] = { "example.com:alice", ".example.com:bob", "sub.example.com:", ":catch", "joe@example.com:joeuser",
   "#comment:x", "nocolon", "EXAMPLE.org:Carol", "example.com:second", "example.com:alice  ", "x.y:pre:fix", "org:o", ".org:dotorg",
-  "a:b", "", "   ", "other.org:catch-any" };
+  "a:b", "", "   ", "other.org:catch-any", "info@example.com:alice", "x@sub2.example.com:bob", "joe@example.com:", "u@a:b",
+  "JOE@Example.Com:joeuser" };
+static const char *P_lline[] = { "localhost", "example.com", "EXAMPLE.ORG", "other.org", "a", "b.a", "", "#x", "sub.example.com", "x.y",
+  "sub2.example.com", "example.com  " };
 static const char *P_sender[] = { "user@remote.example", "", "#@[]", "list-owner-@lists.example-@[]", "-@[]", "#@[]-@[]", "x-@[]-@[]",
   "we\"ird q@x.example", "noatsign", "\374ml@x.example", "a\nb@c.example", "a@b\nc", "@[]", "x@[]", "-@[]x", "#@[] ", "A-@[]", "abc-@[]",
   "a@b\n\n<forged@x>:\nby sender", ".dot.@x", "#@[]-@[]-@[]" };
@@ -440,7 +471,8 @@ static const char *P_mess[] = { "Received: (qmail 1 invoked by uid 0); 26 Sep 19
 static const char *P_recip[] = { "alice-info@example.com", "bob-x@sub2.example.com", "joe@remote.net", "alice@example.com",
   "catch-any@other.org", "joeuser-joe@example.com", "a\nb@example.com", "x>:\n<forged@example.com", "second-s@EXAMPLE.COM",
   "Carol-c@example.org", "alice-", "noat", "pre-u@x.y", "dotorg-u@a.org", "o-u@org", "alice-x@sub.example.com", "alice-\n\n@example.com",
-  "b-u@a", "second-@example.com", "secondx@example.com", "@", "alice-a@b@example.com", "catch-u@", "\n" };
+  "b-u@a", "second-@example.com", "secondx@example.com", "@", "alice-a@b@example.com", "catch-u@", "\n",
+  "joeuser-joe@EXAMPLE.com", "joeuser-x-joe@example.com", "alice-bob@example.com", "joeuser-@example.com", "-joe@example.com" };
 static const char *P_report[] = { "Sorry, no mailbox here by that name. (#5.1.1)\n",
   "Remote host said: 550 no\n\n<victim@x>:\nforged\n", "", "\n", "\n\n", "no trailing newline", "8bit \351\377\n", "a\n\n\nb\n\n",
   "x\n--- Below this line is a copy of the message.\n\nReturn-Path: <>\n", "\n<x>:\n", "a\n\n", "\n\n\n\n", "/\n/\n", "a\r\n\r\nb\r\n",
@@ -448,10 +480,27 @@ static const char *P_report[] = { "Sorry, no mailbox here by that name. (#5.1.1)
 #define NEL(a) (sizeof a / sizeof a[0])
 #define PICK(a) a[h_below(NEL(a))]
 
+/* small-alphabet strings: virtualdomains lines and recipients that actually meet each other */
+static void gen_small(hbuf *o, size_t n, const char *al, size_t nal) {
+  size_t i; hbuf_reset(o);
+  for (i = 0; i < n; i++) hb_add(o, &al[h_below(nal)], 1);
+}
+#define GEN_SMALL(o, n, lit) gen_small(o, n, lit, sizeof(lit) - 1)
 static void gen_vdoms(hbuf *o) {
   int k, n = h_below(6);
   hbuf_reset(o);
+  if (h_below(4) == 0) { GEN_SMALL(o, h_below(40), "ab.:@-# \t\nAB"); return; }
   for (k = 0; k < n; k++) { const char *l = PICK(P_vline); hb_add(o, l, strlen(l)); if (k + 1 < n || h_below(4)) hb_add(o, "\n", 1); }
+}
+static void gen_locals(hbuf *o) {
+  int k, n = h_below(4);
+  hbuf_reset(o);
+  if (h_below(5) == 0) { GEN_SMALL(o, h_below(24), "ab.AB\n# "); return; }
+  for (k = 0; k < n; k++) { const char *l = PICK(P_lline); hb_add(o, l, strlen(l)); if (k + 1 < n || h_below(4)) hb_add(o, "\n", 1); }
+}
+static void gen_control(hbuf *o, const char *pool) {
+  if (h_below(6) == 0) GEN_SMALL(o, h_below(24), "ab.@ \t\n\"\\#:\351");
+  else { hbuf_reset(o); hb_add(o, pool, strlen(pool)); }
 }
 static void gen_bytes(hbuf *o, size_t n, int mode) {
   size_t i; hbuf_reset(o);
@@ -465,12 +514,15 @@ static void gen_bytes(hbuf *o, size_t n, int mode) {
 static void gen_I_blob(int fault, int sender_ix, int mask) {
   static hbuf v, t; int k, nf;
   char flags[8]; int j = 0;
-  for (k = 0; k < 6; k++) if (mask & (1 << k)) flags[j++] = "mfhtdv"[k];
+  for (k = 0; k < 7; k++) if (mask & (1 << k)) flags[j++] = "mfhtdvl"[k];
   flags[j] = 0;
   blob_start();
   blob_adds(flags);
-  blob_adds(PICK(P_me)); blob_adds(PICK(P_bfrom)); blob_adds(PICK(P_bhost)); blob_adds(PICK(P_dbto)); blob_adds(PICK(P_dbhost));
+  gen_control(&t, PICK(P_me)); blob_add(t.p, t.n); gen_control(&t, PICK(P_bfrom)); blob_add(t.p, t.n);
+  gen_control(&t, PICK(P_bhost)); blob_add(t.p, t.n); gen_control(&t, PICK(P_dbto)); blob_add(t.p, t.n);
+  gen_control(&t, PICK(P_dbhost)); blob_add(t.p, t.n);
   gen_vdoms(&v); blob_add(v.p, v.n);
+  gen_locals(&v); blob_add(v.p, v.n);
   { char fs[2] = { (char)fault, 0 }; blob_adds(fs); }
   if (sender_ix >= 0) blob_adds(P_sender[sender_ix]);
   else if (h_below(5) == 0) { gen_bytes(&t, h_below(30), 2); blob_add(t.p, t.n); }
@@ -492,6 +544,7 @@ static int unhex(const char *h, unsigned char *o) {
 
 int main(int argc, char **argv) {
   h_init_out();
+  signal(SIGABRT, on_sig); signal(SIGSEGV, on_sig); signal(SIGBUS, on_sig); signal(SIGFPE, on_sig);
   fnmake_init();
   if (argc > 1 && !strcmp(argv[1], "-")) {
     size_t cap = 1 << 22; char *line = malloc(cap); unsigned char *b = malloc(cap / 2);
@@ -520,41 +573,44 @@ int main(int argc, char **argv) {
         blob_start(); blob_adds(""); blob_adds("a@b"); blob_add(m, len);
         case_P(blob.p, blob.n);
       } } }
-  /* (2) every recipient over {LF,a,b,@,-,.} up to rcplen against a fixed virtualdomains file */
+  /* (2) every recipient over {LF,a,b,@,-,.} up to rcplen against a fixed virtualdomains file (domain, wildcard,
+   *     catch-all, exception, virtual-user and mixed-case entries), without and with a locals file */
+  for (int lo = 0; lo < 2; lo++)
   { static const unsigned char al[6] = { '\n', 'a', 'b', '@', '-', '.' };
-    static const char vd[] = "b:a\n.b:b\n:ab\na.b:\na@b:b\nB.A:a-b\n";
+    static const char vd[] = "b:a\n.b:b\n:ab\na.b:\na@b:b\nB.A:a-b\nb@a:a-b\n";
     for (int len = 0; len <= rcplen; len++) {
       uint64_t total = 1; for (int i = 0; i < len; i++) total *= 6;
       for (uint64_t k = 0; k < total; k++) {
         if (!MINE) continue;
         uint64_t v = k; for (int i = 0; i < len; i++) { m[i] = al[v % 6]; v /= 6; }
-        blob_start(); blob_adds(vd); blob_add(m, len); blob_adds("r\n");
+        blob_start(); blob_adds(vd); blob_add(m, len); blob_adds("r\n"); blob_adds("0"); blob_adds(lo ? "B\na.b\n" : "");
         case_P(blob.p, blob.n);
       } } }
   /* (3) pools: recipient x report x write behaviour, under two virtualdomains files */
   { static const char *vds[] = { "example.com:alice\n.example.com:bob\nsub.example.com:\nEXAMPLE.org:Carol\nx.y:pre:fix\norg:o\n.org:dotorg\na:b\njoe@example.com:joeuser\n",
                                  ":catch\nexample.com:alice\nexample.com:second\n#c:x\nnocolon\nother.org:catch-any \n" };
-    for (unsigned a = 0; a < 2; a++) for (unsigned r = 0; r < NEL(P_recip); r++) for (unsigned t = 0; t < NEL(P_report); t++) {
+    static const char *los[] = { "localhost\n", "EXAMPLE.com\nother.org\n" };
+    for (unsigned a = 0; a < 4; a++) for (unsigned r = 0; r < NEL(P_recip); r++) for (unsigned t = 0; t < NEL(P_report); t++) {
       if (!MINE) continue;
       char wm[2] = { (char)('0' + (r + t) % 6), 0 };
-      blob_start(); blob_adds(vds[a]); blob_adds(P_recip[r]); blob_adds(P_report[t]); blob_adds(wm);
+      blob_start(); blob_adds(vds[a & 1]); blob_adds(P_recip[r]); blob_adds(P_report[t]); blob_adds(wm); blob_adds(los[a >> 1]);
       case_P(blob.p, blob.n);
     } }
   h_seed(seed * 1000003ull + 17);           /* same stream in every shard: cases are picked by id */
   /* (4) injectbounce: every sender form x which control files exist; every fault x sender */
-  for (unsigned s = 0; s < NEL(P_sender); s++) for (int mask = 0; mask < 64; mask++) {
+  for (unsigned s = 0; s < NEL(P_sender); s++) for (int mask = 0; mask < 128; mask++) {
     gen_I_blob('-', s, mask);
     if (!MINE) continue;
     case_I(blob.p, blob.n);
   }
   for (unsigned s = 0; s < NEL(P_sender); s++) for (int fi = 0; fi < 10; fi++) for (int mk = 0; mk < 2; mk++) {
-    gen_I_blob("-abcdefghi"[fi], s, mk ? 63 : 1);
+    gen_I_blob("-abcdefghi"[fi], s, mk ? 127 : 1);
     if (!MINE) continue;
     case_I(blob.p, blob.n);
   }
   /* (5) chains for every sender form */
   for (unsigned s = 0; s < NEL(P_sender); s++) for (int mk = 0; mk < 4; mk++) {
-    gen_I_blob('-', s, (int[]){ 0, 1, 63, 30 }[mk]);
+    gen_I_blob('-', s, (int[]){ 0, 1, 127, 94 }[mk]);
     if (!MINE) continue;
     case_C(blob.p, blob.n);
   }
@@ -566,7 +622,8 @@ int main(int argc, char **argv) {
       char fl[3] = { (char)('0' + dy), (r & 1) ? 'r' : 'l', 0 };
       blob_start(); blob_adds(fl); blob_adds(P_recip[(r + si) % NEL(P_recip)]);
       hbuf_reset(&t); hb_add(&t, &sts[si], 1); hb_add(&t, P_report[r], strlen(P_report[r])); blob_add(t.p, t.n);
-      blob_adds((const char *[]){ "1", "7", "2048" }[ck]); blob_adds("example.com:alice\n");
+      blob_adds((const char *[]){ "1", "7", "2048" }[ck]); blob_adds("example.com:alice\njoe@example.com:joeuser\n");
+      blob_adds((r % 3 == 0) ? "example.com\n" : "localhost\n");
       case_D(blob.p, blob.n);
     }
     for (int len = REPORTMAX - 6; len <= REPORTMAX + 4; len++) for (int si = 0; si < 2; si++) for (int dy = 0; dy < 2; dy++) {
@@ -583,19 +640,23 @@ int main(int argc, char **argv) {
     static hbuf v, t, u;
     int kind = h_below(10);
     if (kind < 4) {
-      gen_I_blob(h_below(3) ? '-' : "abcdefghi"[h_below(9)], -1, h_below(64));
+      gen_I_blob(h_below(3) ? '-' : "abcdefghi"[h_below(9)], -1, h_below(128));
       if (!MINE) continue;
       case_I(blob.p, blob.n);
     } else if (kind < 5) {
-      gen_I_blob('-', -1, h_below(64));
+      gen_I_blob('-', -1, h_below(128));
       if (!MINE) continue;
       case_C(blob.p, blob.n);
     } else if (kind < 9) {
       gen_vdoms(&v);
-      if (h_below(3) == 0) { gen_bytes(&t, h_below(24), 2); } else { const char *s = PICK(P_recip); hbuf_reset(&t); hb_add(&t, s, strlen(s)); }
+      { uint32_t w = h_below(4);
+        if (w == 0) gen_bytes(&t, h_below(24), 2);
+        else if (w == 1) GEN_SMALL(&t, h_below(12), "ab.@-AB\n");
+        else { const char *s = PICK(P_recip); hbuf_reset(&t); hb_add(&t, s, strlen(s)); } }
       if (h_below(3)) gen_bytes(&u, h_below(10) == 0 ? 3000 + h_below(9000) : h_below(200), h_below(3)); else { const char *s = PICK(P_report); hbuf_reset(&u); hb_add(&u, s, strlen(s)); }
       char wm[2] = { (char)('0' + h_below(6)), 0 };
       blob_start(); blob_add(v.p, v.n); blob_add(t.p, t.n); blob_add(u.p, u.n); blob_adds(wm);
+      gen_locals(&v); blob_add(v.p, v.n);
       if (!MINE) continue;
       case_P(blob.p, blob.n);
     } else {
@@ -605,6 +666,7 @@ int main(int argc, char **argv) {
       if (u.n) u.p[0] = "DDZZKx"[h_below(6)];
       char ck[8]; snprintf(ck, sizeof ck, "%d", 1 + (int)h_below(3000));
       blob_start(); blob_adds(fl); blob_adds(PICK(P_recip)); blob_add(u.p, u.n); blob_adds(ck); blob_add(v.p, v.n);
+      gen_locals(&v); blob_add(v.p, v.n);
       if (!MINE) continue;
       case_D(blob.p, blob.n);
     }
